@@ -55,7 +55,7 @@ class Tracked:
         kind, obj, sid, orig = self.items[i - 1]
         try:
             if op == "rename":
-                obj.set_name(self.name_for(kind, n))
+                obj.set_name(orig if n == 0 else self.name_for(kind, n))      # 0: back to the original name
             else:
                 obj.reload()
             return None
@@ -157,7 +157,7 @@ def run(chk):
         for _ in range(rnd.randrange(3, 25)):
             i = rnd.choice(ren)
             if rnd.random() < 0.6:
-                op, n = "rename", rnd.randrange(1, 6)
+                op, n = "rename", rnd.randrange(0, 6)
             else:
                 op, n = "reload", 0
             err = t.apply(op, i, n)
@@ -184,7 +184,7 @@ def run(chk):
             chk.violation("C17:unexplained:%s" % "+".join(kinds), "Rename_Trace: observed name is neither the dictionary value nor what the hook model (the recorded known finding, exactly) predicts",
                           dict(source=src, event=dict(op=rec["op"], item=rec["item"], name=rec["name"], error=rec["err"]), observed=rec["obs"], items=sorted(unexplained)))
     # binding self-test
-    ok_idx = next((i for i in range(1, n_model) if i not in rejected and recs[i]["op"] == "rename" and recs[i - 1]["op"] == "begin"), None)
+    ok_idx = next((i for i in range(1, n_model) if i not in rejected and recs[i]["op"] == "rename" and recs[i]["name"] != 0 and recs[i - 1]["op"] == "begin"), None)
     if ok_idx is not None:
         bad = [dict(recs[ok_idx - 1]), dict(recs[ok_idx])]
         bad[1]["obs"] = list(bad[1]["obs"])
